@@ -35,7 +35,7 @@ ASSUMPTIONS = [
     "no other live node has taken over a serialized id at deserialization time (alive-subsets arise from dropping handles / detaching whole trees)",
     "Any-typed properties, NaN/inf, lone surrogates and ints beyond 64 bits are outside the generator",
 ]
-MUST_SEE = ["recreated_with_suffix_id", "shared_subtrees", "fresh_process_cases", "subforest_alive", "none_alive", "all_alive", "multi_origin", "hostile_strings", "index_sources", "yaml", "msgpck", "json"]
+MUST_SEE = ["recreated_with_suffix_id", "shared_subtrees", "fresh_process_cases", "subforest_alive", "none_alive", "all_alive", "multi_origin", "hostile_strings", "index_sources", "yaml", "msgpck", "json", "failed_call_before_roundtrip"]
 CONFIG = {
     "quick": {"shards": 16, "trees": 60, "fresh": 6, "watchdog_s": 600},
     "thorough": {"shards": 32, "trees": 400, "fresh": 60, "watchdog_s": 3400},
@@ -232,6 +232,22 @@ def run_shard(ctx):
             del paths, root
             n = p = q = m = None
             collect()
+            if rng.random() < 0.25:
+                # an earlier call that fails part-way (unknown type tag below the root, index-based sources requested)
+                ctx.count("failed_call_before_roundtrip")
+                try:
+                    C.as_obj({"__type": C.__name__, "id": "x", "content_id": "y", "origin": {"__type": "CodeOrigin", "source": {"idx": 987654}, "position": {}}},
+                             serialization_options={SOURCE_OPTIMIZED_SERIALIZATION_KEY: True, SerializationOption.SKIP_CLASS: True})
+                except Exception:  # noqa: BLE001
+                    pass
+                if not opts:
+                    # the payload for this leg is produced *after* the failed call and must be a default one
+                    tmp = build(U, deep_copy(s))
+                    chk = tmp.as_dict()
+                    tmp.detach()
+                    if "__type" not in chk or any(isinstance(v, dict) and set(v) == {"idx"} for v in (chk.get("origin", {}).get("source"),)):
+                        ctx.violation("options-leaked-into-roundtrip", "a default serialization after a failed call with options is not a default serialization", dict(detail, keys=list(chk)[:6]))
+                    del tmp
             try:
                 res = from_fmt(C, payload, fmt, opts)
             except Exception as e:  # noqa: BLE001
